@@ -256,6 +256,9 @@ func mutate(t *rapid.T, text string) (string, mutation) {
 		if len(strs) > 0 && rapid.Bool().Draw(t, "cutString") {
 			i := pick(strs)
 			s := tt[i].text
+			if len(s) < 2 {
+				return splice(i, token{text: `"x`}), mutation{kind, tt[i].off, tt[i]}
+			}
 			cut := rapid.IntRange(1, len(s)-1).Draw(t, "cutAt")
 			for cut > 1 && !utf8.RuneStart(s[cut]) {
 				cut--
